@@ -146,6 +146,84 @@ pub fn unbounded(sink: &mut Sink, cfg: &str) {
     }
 }
 
+/// Objects keyed by the private tokens (`number::TOKEN`, `raw::TOKEN`): as first key (the crate reads the object as a
+/// Number / RawValue), as a later key (an ordinary object), duplicated, spelled with escapes; every kind of value behind
+/// it; more members after it; whitespace and newlines around every token (line/column); nested at depth 126–128;
+/// every truncation of the short documents (EOF classes). Tag `private-token`.
+pub fn private_tokens(sink: &mut Sink, cfg: &str, r: &mut Rng, thorough: bool) {
+    const NUM: &str = "$serde_json::private::Number";
+    const RAW: &str = "$serde_json::private::RawValue";
+    let toks: [&str; 8] = [NUM, RAW, "\\u0024serde_json::private::Number", "$serde_json::private::\\u004eumber",
+        "$serde\\u005fjson\\u003a:private::Numbe\\u0072", "$serde_json:\\u003Aprivate::RawValue",
+        "$serde_json::private::Numbe", "\\ud83d\\ude00$serde_json::private::Number"];
+    let bodies: [&str; 44] = ["\"1\"", "\"-0\"", "\"1e5\"", "\"abc\"", "\"\"", "\"[1, 2]\"", "\" 1\"", "1", "null", "[\"1\"]", "\"1\",\"b\":2", "\"}{\"",
+        "\"1e400\"", "\"1 \"", "\"01\"", "\"1.\"", "\"+1\"", "\"10\"", "\"-\"", "\"-x1\"", "\"1ex5\"", "\"1e\"", "\"1e+\"", "\"1e+x\"", "\"1.5e-3\"", "\"0.0\"",
+        "\"-1.25E+7\"", "\"1\\n\"", "\"\\n1\"", "\"\\u0031\"", "\"1\\u0065\\u0035\"", "\"\\ud83d\\ude00\"", "\"\\ud800\"", "\"1\\x\"", "\"1\u{1}\"",
+        "[ ]", "{}", "true", "false", "-1.5e3", "tru", "-", "\"1\" , \"b\" : 2", "\"1\" x"];
+    for tok in toks.iter() {
+        for body in bodies.iter() {
+            let docs = [format!("{{\"{}\":{}}}", tok, body), format!(" {{ \"{}\" : {} }} ", tok, body), format!("[{{\"{}\":{}}}]", tok, body),
+                        format!("{{\"a\":1,\"{}\":{}}}", tok, body), format!("{{\"k\":{{\"{}\":{}}}}}", tok, body),
+                        format!("\n{{\n\"{}\"\n:\n{}\n}}\n", tok, body), format!("[1,\r\n {{\t\"{}\" :\n\n  {} \n}} ,2]", tok, body),
+                        format!("{{\"{}\":{},\"{}\":{}}}", tok, body, tok, body), format!("{{\"{}\":{}}}{{\"{}\":{}}}", tok, body, tok, body),
+                        format!("{{\"{}\":{} ,}}", tok, body), format!("{{\"{}\":{}]", tok, body), format!("{{\"{}\" {}}}", tok, body),
+                        format!("{{\"{}\":{{\"{}\":{}}}}}", tok, tok, body)];
+            for doc in docs.iter() { emit(sink, cfg, doc.as_bytes(), r, "private-token"); }
+        }
+    }
+    // every truncation of the plain documents (and of the padded multi-line form): EOF classes in every phase
+    for tok in [NUM, RAW, "\\u0024serde_json::private::Number"] {
+        let quick_bodies: [&str; 9] = ["\"1\"", "\"1e5\"", "\"abc\"", "1", "-1.5", "null", "[ ]", "\"1\",\"b\":2", "\"\\u0031\""];
+        let cut_bodies: &[&str] = if thorough { &bodies } else { &quick_bodies };
+        for body in cut_bodies.iter() {
+            for doc in [format!("{{\"{}\":{}}}", tok, body), format!("[ {{ \"{}\"\n : {}\n }} ]", tok, body)] {
+                let b = doc.as_bytes();
+                let lo = if thorough { 0 } else { doc.find(':').unwrap_or(0).saturating_sub(3) };
+                for cut in lo..b.len() { emit(sink, cfg, &b[..cut], r, "private-token-cut"); }
+            }
+        }
+    }
+    // nesting: the token object is the d-th container (arrays / objects / mixed around it); depth limit at 128
+    for d in [1usize, 2, 125, 126, 127, 128, 129] {
+        for mix in 0..3 {
+            let mut open = vec![]; let mut close = vec![];
+            for i in 0..d - 1 {
+                let obj = match mix { 0 => false, 1 => true, _ => i % 2 == 0 };
+                if obj { open.extend_from_slice(b"{\"a\":"); close.insert(0, b'}'); } else { open.push(b'['); close.insert(0, b']'); }
+            }
+            for tok in [NUM, RAW] {
+                for body in ["\"1\"", "\"x\"", "1", "[]", "\"1\",\"b\":[]"] {
+                    let mut doc = open.clone(); doc.extend_from_slice(format!("{{\"{}\":{}}}", tok, body).as_bytes()); doc.extend_from_slice(&close);
+                    emit(sink, cfg, &doc, r, "private-token-deep");
+                }
+            }
+        }
+    }
+    // random recombination: token / ordinary keys, bodies, separators, whitespace
+    let n = if thorough { 20000 } else { 1500 };
+    let ws: [&str; 6] = ["", " ", "\n", "\r\n", "\t ", " \n\n "];
+    for _ in 0..n {
+        let mut doc = String::new();
+        let arr = r.chance(1, 3);
+        if arr { doc.push('['); doc.push_str(*r.pick(&ws)); }
+        doc.push('{'); doc.push_str(*r.pick(&ws));
+        let members = 1 + r.below(3);
+        for m in 0..members {
+            let key = if r.chance(2, 3) { *r.pick(&toks) } else { *r.pick(&["a", "", "$", "~"]) };
+            doc.push('"'); doc.push_str(key); doc.push('"'); doc.push_str(*r.pick(&ws));
+            doc.push(if r.chance(1, 30) { ' ' } else { ':' }); doc.push_str(*r.pick(&ws));
+            doc.push_str(*r.pick(&bodies)); doc.push_str(*r.pick(&ws));
+            if m + 1 < members || r.chance(1, 15) { doc.push(','); doc.push_str(*r.pick(&ws)); }
+        }
+        if !r.chance(1, 20) { doc.push('}'); }
+        doc.push_str(*r.pick(&ws));
+        if arr { if r.chance(1, 2) { doc.push_str(",2"); } doc.push(']'); }
+        let mut b = doc.into_bytes();
+        if r.chance(1, 6) { let k = r.below(b.len() + 1); b.truncate(k); }
+        emit(sink, cfg, &b, r, "private-token-rand");
+    }
+}
+
 pub fn run(sink: &mut Sink, prop: &str, thorough: bool, seed: u64) {
     let mut r = Rng::new(seed);
     let cfg = cfg_tag();
@@ -177,14 +255,7 @@ pub fn run(sink: &mut Sink, prop: &str, thorough: bool, seed: u64) {
     // the private tokens through which Number (arbitrary_precision) and RawValue (raw_value) travel inside serde's data
     // model are ordinary JSON object keys as far as RFC 8259 is concerned: objects whose FIRST key decodes to one of them
     if (prop == "C01" || prop == "C02") && (cfg!(feature = "ap") || cfg!(feature = "rv")) {
-        for tok in ["$serde_json::private::Number", "$serde_json::private::RawValue", "\\u0024serde_json::private::Number"] {
-            for body in ["\"1\"", "\"-0\"", "\"1e5\"", "\"abc\"", "\"\"", "\"[1, 2]\"", "\" 1\"", "1", "null", "[\"1\"]", "\"1\",\"b\":2", "\"}{\""] {
-                for doc in [format!("{{\"{}\":{}}}", tok, body), format!(" {{ \"{}\" : {} }} ", tok, body), format!("[{{\"{}\":{}}}]", tok, body),
-                            format!("{{\"a\":1,\"{}\":{}}}", tok, body), format!("{{\"k\":{{\"{}\":{}}}}}", tok, body)] {
-                    emit(sink, &cfg, doc.as_bytes(), &mut r, "private-token");
-                }
-            }
-        }
+        private_tokens(sink, &cfg, &mut r, thorough);
     }
     let toks = tokens();
     let n = if thorough { 4 } else { 3 };
